@@ -120,15 +120,29 @@ def r2_sqlite(ctx: Context) -> None:
     g = CFG(save.node, exc_edges=True)
     calls = calls_in(save.node)
     conn = [c for c in calls if (dotted(c.func) or "") == "sqlite3.connect"]
-    ctx.floor("R2", "sqlite3.connect in the SQLite save", len(conn), 1)
+    conn_owner = {id(c): save for c in conn}
+    # the connection may be opened by a helper of the same module
+    opener_calls = []
+    for c in calls:
+        for t in prog.resolve_call(save, c):
+            if isinstance(t, FuncInfo) and t.module is save.module and t is not save:
+                inner = [x for x in calls_in(t.node) if (dotted(x.func) or "") == "sqlite3.connect"]
+                if inner:
+                    opener_calls.append(c)
+                    ctx.analysed(t)
+                    for x in inner:
+                        conn.append(x)
+                        conn_owner[id(x)] = t
+    ctx.floor("R2", "sqlite3.connect reachable from the SQLite save", len(conn), 1)
     for c in conn:
         iso = kwarg(c, "isolation_level")
         auto = kwarg(c, "autocommit")
         bad = (iso is not None and isinstance(iso, ast.Constant) and iso.value is None) or (auto is not None and isinstance(auto, ast.Constant) and auto.value is True)
+        owner = conn_owner[id(c)]
         ctx.check(not bad, "R2.autocommit", "sqlite3.save:connect-mode", "the connection runs DML inside an implicit transaction (not autocommit)",
-                  f"`{src(c)[:100]}` opens the connection in autocommit mode: the DELETE is committed on its own and rollback()/commit() do nothing - a failed save loses the previous checkpoint", save, c)
+                  f"`{' '.join(src(c).split())[:140]}` opens the connection in autocommit mode: the DELETE is committed on its own and rollback()/commit() do nothing - a failed save loses the previous checkpoint", owner, c)
         if iso is not None and not isinstance(iso, ast.Constant):
-            raise AnalysisError(f"{save.loc(c)}: isolation_level is not a literal; cannot decide the transaction mode")
+            raise AnalysisError(f"{owner.loc(c)}: isolation_level is not a literal; cannot decide the transaction mode")
 
     def sql_of(call: ast.Call) -> str:
         a = call.args[0] if call.args else None
@@ -161,7 +175,8 @@ def r2_sqlite(ctx: Context) -> None:
     ctx.check(len(deletes) >= 1, "R2.single-row", "sqlite3.save:delete-present", "the previous row is deleted so that the table holds one checkpoint",
               "no DELETE is executed: the table accumulates rows and load returns the oldest checkpoint", save, save.node)
     ctx.check(len(commits) == 1, "R2.order", "sqlite3.save:one-commit", "exactly one commit()", f"{len(commits)} commit() calls", save, save.node)
-    N = lambda cs: {x for c in cs for x in node_for(g, c)}  # noqa: E731
+    N = lambda cs: {x for c in cs for x in node_for(g, c) if any(y is c for y in ast.walk(save.node))}  # noqa: E731
+    conn_in_save = [c for c in conn if conn_owner[id(c)] is save] + opener_calls
     normal = {"next", "true", "false", "loop", "exhaust"}
     # order: executescript -> DELETE -> INSERT -> commit, each on every normal path
     chain = [("executescript", N(scripts)), ("DELETE", N(deletes)), ("INSERT", N(inserts)), ("commit", N(commits))]
@@ -195,7 +210,9 @@ def r2_sqlite(ctx: Context) -> None:
     ctx.check(worst is None and bool(rb), "R2.rollback", "sqlite3.save:rollback-on-error", "every failure after connect reaches rollback() before propagating",
               f"an exception at `{src(worst[0].ast)[:60] if worst else '?'}` propagates without rollback()", save, worst[0].ast if worst else save.node, path_text(save, worst[1]) if worst else None)
     for fn, gg, what in ((save, g, "save"), (load, CFG(load.node, exc_edges=True), "load")):
-        cn = {x for c in calls_in(fn.node) if (dotted(c.func) or "") == "sqlite3.connect" for x in node_for(gg, c)}
+        openers = [c for c in calls_in(fn.node) if (dotted(c.func) or "") == "sqlite3.connect" or any(
+            isinstance(t, FuncInfo) and t.module is fn.module and any((dotted(x.func) or "") == "sqlite3.connect" for x in calls_in(t.node)) for t in prog.resolve_call(fn, c))]
+        cn = {x for c in openers for x in node_for(gg, c)}
         cls_nodes = {x for c in calls_in(fn.node) if isinstance(c.func, ast.Attribute) and c.func.attr == "close" for x in node_for(gg, c)}
         bad = None
         for c0 in cn:
@@ -239,4 +256,14 @@ def r3_loud_load(ctx: Context, pl: Plumbing) -> None:
         for c in calls_in(f.node, scope_only=False):
             if isinstance(c.func, ast.Attribute) and c.func.attr == "get" and isinstance(c.func.value, ast.Name) and c.func.value.id in ("cp", "cr") and len(c.args) >= 1:
                 ctx.fail("R3.loud", f"{f.qualname.split(':')[1]}:default:{src(c.args[0])}", f"`{src(c)}` substitutes a default for a missing checkpoint entry instead of failing", f, c)
+    for f in funcs:
+        for x in ast.walk(f.node):
+            if isinstance(x, ast.Call) and isinstance(x.func, ast.Attribute) and x.func.attr in ("exists", "is_file") or (isinstance(x, ast.Call) and (dotted(x.func) or "") in ("os.path.exists", "os.path.isfile")):
+                par = getattr(x, "_parent", None)
+                while par is not None and not isinstance(par, (ast.If, ast.IfExp, ast.stmt)):
+                    par = getattr(par, "_parent", None)
+                if isinstance(par, (ast.If, ast.IfExp)):
+                    ctx.fail("R3.loud", f"{f.qualname.split(':')[1]}:tolerates-missing:{' '.join(src(x).split())[:50]}",
+                             f"`{' '.join(src(x).split())[:70]}` on the load path: a missing checkpoint file is tolerated and replaced by a default - exactly the on-disk state of a save interrupted before that file was written "
+                             "is then restored silently as a truncated history", f, x)
     ctx.ok("R3.loud", "load-paths:scanned", f"{len(funcs)} load functions scanned, {n_handlers} handler(s) re-raise")
